@@ -209,7 +209,7 @@ def run(ctx):
              % (cs["n"], cs["gated"], cs["variant"], len(cs["incoherent"]), cs["incoherent_outside_hypotheses"]))
     if cs["variant"] == "neither":
         i = (cs["bad_original"] or [0])[0]
-        d["model_diffs"].append(dict(case=i, side="reader x committer vs Cache/Conc.v (neither ordering matches)",
+        d["model_diffs"].append(dict(case=-1, conc_index=i, side="reader x committer vs Cache/Conc.v (neither ordering matches)",
                                      conc_case=cs["cases"][i], impl=cs["impl"][i],
                                      model_original=cs["O"][i] if i < len(cs["O"]) else None,
                                      model_repaired=cs["F"][i] if i < len(cs["F"]) else None))
@@ -223,6 +223,19 @@ def run(ctx):
         core.log(l)
     if f1_rc not in (0, 10):
         raise RuntimeError("cache f1 failed (rc=%s)" % f1_rc)
+    soak_line = None
+    if not ctx.quick:
+        # free-threaded: 6 readers against the committer, no artificial delay; final slot answers vs a
+        # reader-less replay of the same commits
+        rc, out = core.sh([exe, "soak", "40", "100", "6"], timeout=900)
+        soak_line = ([l for l in out.splitlines() if l.startswith("SOAK")] or ["SOAK no output (rc=%s)" % rc])[-1]
+        core.log(soak_line)
+        if rc == 10:
+            f1_rep = True
+            f1_lines = f1_lines + [soak_line]
+        elif rc != 0:
+            d["model_diffs"].append(dict(case=-1, side="free-threaded soak of readers x committer", what=soak_line))
+            corr_ok = False
     known_f1 = any(k.get("id") == "F1" for k in ctx.known_findings())
 
     if not proof["ok"] or not corr_ok or d["impl_diffs"]:
@@ -261,7 +274,7 @@ def run(ctx):
         evaluations=len(d["cases"]), distinct_nontrivial=st["distinct_nontrivial"],
         rule="seeded histories (1..3 blocks of commits built from synthetic finalised EvmStates: create, destroy, recreate, destroy-again, empty-touch, LoadedEmptyEIP161, storage churn; increments, drains, reads of accounts/slots/code through Database, DatabaseRef and the worker view; merge_transitions / parallel_take_bundle with both retentions, take_bundle, re-injected bundles; final read-back of everything) run on the REAL ParallelState, the REAL revm State and both extracted models; non-trivial = distinct history with a destruction or re-creation transition, a slot read and a merge",
         distribution=st,
-        f1=dict(reproduced_on_real_code=f1_rep, lines=f1_lines, listed_as_known=known_f1),
+        f1=dict(reproduced_on_real_code=f1_rep, lines=f1_lines, listed_as_known=known_f1, soak=soak_line),
         conc=dict(schedules=cs["n"], with_held_fetch=cs["gated"], ordering_followed_by_code=cs["variant"],
                   mismatches_vs_original=cs["n_bad_original"], mismatches_vs_repaired=cs["n_bad_repaired"],
                   runs_ending_incoherent=len(cs["incoherent"]),
